@@ -333,6 +333,9 @@ def run_instance(eng, prover, inst, props):
                         prot_names = pk.v
                     ok = e[2] in prot_names or e[2].startswith("__")
                     prover.structural(f"C18/{base}/internal-attribute-is-protected", ok, x, dict(ctx, name=e[2], where=e[3]))
+                elif e[0] == "requires" and str(e[2]).startswith("Inv.node:"):
+                    # a node's container is only ever (re)bound to a container of scalars and family nodes
+                    prover.goal(f"C18/{base}/store-site:{e[2]}", x, e[3], info=ctx)
         if "C09" in props and spec["kind"] == "mutator":
             check_guarded(eng, prover, "C09", base, x, s, ctx)
         if "C14" in props:
